@@ -957,53 +957,60 @@ Definition missing_element (segs : list pseg) (i : nat) (ps : pseg) (v : rnode) 
       else gerr (YPE Generic)
   end.
 
+(* _get_nodes_by_path_segment for segment i, with fuel for the data dimension
+   (key pass-through re-enters the dispatcher on the elements of a list) *)
+Fixpoint walk (sg_next : rnode -> ctx -> gen rnode) (rqp : ppath -> rnode -> ctx -> gen rnode)
+         (segs : list pseg) (i : nat) (vf : nat) (v : rnode) (c : ctx) {struct vf} : gen rnode :=
+  match vf with
+  | O => gfuel
+  | S vf' => dispatch (walk sg_next rqp segs i vf') sg_next rqp segs i v c
+  end.
+
+(* one level of the drivers; [rec] evaluates strictly lighter (path, index) pairs *)
+Definition ev_body (rec : mode -> list pseg -> nat -> rnode -> ctx -> gen rnode)
+           (md : mode) (segs : list pseg) (i : nat) (v : rnode) (c : ctx) : gen rnode :=
+  let rqp := fun (p : ppath) (v : rnode) (c : ctx) =>
+               match p with
+               | PFail e => gerr e
+               | PPath s => rec MReq s 0 v c
+               end in
+  let here := fun (v : rnode) (c : ctx) => walk (rec MSeg segs (S i)) rqp segs i (S (vsize v)) v c in
+  match md with
+  | MSeg => here v c
+  | MReq =>
+      if i <? List.length segs then
+        gbind (here v (mkctx (x_par c) (x_ref c) true (x_tp c) (x_anc c))) (fun x =>
+          if is_pylist x then rec MReq segs (S i) x c
+          else match x with
+               | RCoords nd par rf path anc => rec MReq segs (S i) nd (mkctx par rf true path anc)
+               | _ => gerr (PyCrash AttributeError)
+               end)
+      else gone (coords v (x_par c) (x_ref c) (x_tp c) (x_anc c))
+  | MOpt =>
+      match nth_error segs i with
+      | None => gone (coords v (x_par c) (x_ref c) (x_tp c) (x_anc c))
+      | Some ps =>
+          let g := here v (mkctx (x_par c) (x_ref c) true (x_tp c) (x_anc c)) in
+          let found :=
+            gbind g (fun x =>
+              if is_pylist x then rec MOpt segs (S i) x c
+              else match x with
+                   | RCoords nd par rf path anc =>
+                       if is_pynone nd then gone x
+                       else rec MOpt segs (S i) nd (mkctx par rf true path anc)
+                   | _ => gerr (PyCrash AttributeError)
+                   end) in
+          match g with
+          | ([], Done) => if creatable (fst (seg_us ps)) then missing_element segs i ps v c else found
+          | _ => found
+          end
+      end
+  end.
+
 Fixpoint ev (pf : nat) (md : mode) (segs : list pseg) (i : nat) (v : rnode) (c : ctx) {struct pf} : gen rnode :=
   match pf with
   | O => gfuel
-  | S pf' =>
-      let rqp := fun (p : ppath) (v : rnode) (c : ctx) =>
-                   match p with
-                   | PFail e => gerr e
-                   | PPath s => ev pf' MReq s 0 v c
-                   end in
-      let walk :=
-        (fix walk (vf : nat) (v : rnode) (c : ctx) {struct vf} : gen rnode :=
-           match vf with
-           | O => gfuel
-           | S vf' => dispatch (walk vf') (ev pf' MSeg segs (S i)) rqp segs i v c
-           end) in
-      let here := fun (v : rnode) (c : ctx) => walk (S (vsize v)) v c in
-      match md with
-      | MSeg => here v c
-      | MReq =>
-          if i <? List.length segs then
-            gbind (here v (mkctx (x_par c) (x_ref c) true (x_tp c) (x_anc c))) (fun x =>
-              if is_pylist x then ev pf' MReq segs (S i) x c
-              else match x with
-                   | RCoords nd par rf path anc => ev pf' MReq segs (S i) nd (mkctx par rf true path anc)
-                   | _ => gerr (PyCrash AttributeError)
-                   end)
-          else gone (coords v (x_par c) (x_ref c) (x_tp c) (x_anc c))
-      | MOpt =>
-          match nth_error segs i with
-          | None => gone (coords v (x_par c) (x_ref c) (x_tp c) (x_anc c))
-          | Some ps =>
-              let g := here v (mkctx (x_par c) (x_ref c) true (x_tp c) (x_anc c)) in
-              let found :=
-                gbind g (fun x =>
-                  if is_pylist x then ev pf' MOpt segs (S i) x c
-                  else match x with
-                       | RCoords nd par rf path anc =>
-                           if is_pynone nd then gone x
-                           else ev pf' MOpt segs (S i) nd (mkctx par rf true path anc)
-                       | _ => gerr (PyCrash AttributeError)
-                       end) in
-              match g with
-              | ([], Done) => if creatable (fst (seg_us ps)) then missing_element segs i ps v c else found
-              | _ => found
-              end
-          end
-      end
+  | S pf' => ev_body (ev pf') md segs i v c
   end.
 
 Definition root_ctx : ctx := mkctx None None true "" [].
